@@ -186,7 +186,7 @@ def run(ctx):
     _s.eof_helper_not_leaked(ctx, P)
     # no error of the integrity machinery is dropped on the way to the consumer (R-err of C09 restricted to the decryptor stack)
     from rules import stream
-    stream.r_err(ctx, P, only=r'crypto::(aead|sym)::|composed::message::reader::(sym_encrypted|packet_body)|composed::message::(types|decrypt)', floor=250)
+    stream.r_err(ctx, P, only=r'crypto::(aead|sym)::|composed::message::reader::(sym_encrypted|packet_body)|composed::message::(types|decrypt)|packet::many::', floor=250)
 
 
 STREAMING_MAKERS = {
